@@ -14,7 +14,8 @@ CFG = {
                  "outcome must be Ok or Err (exit by signal, panic - catch_unwind and panic hook -, or timeout = violation). Streams: hand-written "
                  "corner cases; every prefix and every single-character deletion of every snapshot-corpus template (sampled 1/6 in quick, all in "
                  "thorough) and of 14 base templates; multi-byte characters next to every delimiter; 26 nesting constructs at 1..7, 19..21, 34..44, "
-                 "80, 100, 1000, 10^5; 27 chain constructs at 10..10^5; 400-digit numbers; unterminated strings/comments/raw/tags of 100 KB; "
+                 "80, 100, 1000, 10^5, everything-at-its-limit recipes, elif chains nested in the last elif / else branch of one another "
+                 "(2..38 chains of 100..500 elifs); 27 chain constructs at 10..10^5; 400-digit numbers; unterminated strings/comments/raw/tags of 100 KB; "
                  "25 delimiter sets (14 accepted incl. 2-byte characters, `-`, quotes, whitespace; 11 rejected must return Err) x base templates "
                  "x prefixes; 16 template names x 7 sources; random splices of corpus templates. Evaluations = inputs x 2 stacks; non-trivial = "
                  "source of at least 8 bytes. skel: token lists of the skeleton grammar (generated documents, truncations, inside-token mutations, "
@@ -32,7 +33,9 @@ CFG = {
                  "(set, block, for, if, filter, break/continue), parse_for_loop, parse_if, parse_set; counters recursion_depth, array_dimension, "
                  "num_left_brackets (+ expr_height, elif_depth of the D11 repair), body_contexts, blocks_seen",
                  "not in the skeleton alphabet: components, include/extends, `?.`/`?[`, the `loop.` rewrite, literal values, spans, messages",
-                 "lexer: not modelled here (C08 models it); lexer totality is left to the runtime oracle"],
+                 "lexer: not modelled here; Props/C06.v cites C08 (termination and in-bounds ranges of the byte-level model of all of "
+                 "basic_tokenize) and C12 (advance! is total exactly on character boundaries); that the computed offsets are boundaries "
+                 "is not proved anywhere and stays with the runtime oracle (multi-byte streams, 2-byte-character delimiters)"],
     "assumptions": ["implementation == model only on the token lists enumerated by the harness",
                     "stack safety holds for the explored inputs on 2 MiB and 8 MiB stacks in the release build of the harness; "
                     "thresholds measured for debug builds are in the C06 notes of the report"],
